@@ -182,13 +182,15 @@ func (c *Ctx) authUseGuard(fn *ssa.Function, pos token.Pos) (ok bool, detail str
 	var useCall, authCall *ast.CallExpr
 	ast.Inspect(fi.Decl.Body, func(n ast.Node) bool {
 		call, ok := n.(*ast.CallExpr)
-		if !ok || len(call.Args) != 1 {
+		if !ok || len(call.Args) < 1 {
 			return true
 		}
 		if call.Pos() <= pos && pos < call.End() {
-			if inner, ok := ast.Unparen(call.Args[0]).(*ast.CallExpr); ok {
-				if o := calleeObj(info, inner); o != nil && objPkgPath(o) == pkgMiddleware && o.Name() == "BasicAuthMiddleware" {
-					useCall, authCall = call, inner
+			for _, arg := range call.Args {
+				if inner, ok := ast.Unparen(arg).(*ast.CallExpr); ok {
+					if o := calleeObj(info, inner); o != nil && objPkgPath(o) == pkgMiddleware && o.Name() == "BasicAuthMiddleware" {
+						useCall, authCall = call, inner
+					}
 				}
 			}
 		}
@@ -322,7 +324,7 @@ var ruleK1 = &Rule{
 			}
 			fn0 := first.Parent()
 			uses = append([]muxSite{{fn: fn0, ins: first, method: "Use"}}, uses...)
-			ok, detail := c.authUseGuard(fn0, uses[0].ins.Pos())
+			ok, detail := c.authInstallSSA(first)
 			st := OK
 			if !ok {
 				st = Violation
@@ -428,8 +430,8 @@ var ruleK2 = &Rule{
 	},
 }
 
-var ruleK3 = &Rule{
-	ID:    "K3",
+var ruleK3old = &Rule{
+	ID:    "K3old",
 	Floor: 4,
 	Doc: "no pass-through without both equalities: in the handler returned by BasicAuthMiddleware(login, pass) there is exactly one next.ServeHTTP call; it is dominated by the false edge of a condition whose disjuncts include `<pair>[0] != login` and `<pair>[1] != pass` " +
 		"(the constructor's own two parameters, exact string inequality) as well as by the rejections of an empty header and of a non-Basic scheme; every other exit of the handler is preceded by http.Error with 401 or 400",
@@ -597,4 +599,148 @@ var ruleK3 = &Rule{
 	},
 }
 
-func init() { register(ruleK1, ruleK2, ruleK3) }
+func init() { register(ruleK1, ruleK2) }
+
+var _ = ruleK3old
+
+
+// authInstallSSA decides, on SSA, that the first middleware installed by the Use call is BasicAuthMiddleware(u, p) under exactly the
+// condition u != "" && p != "". The middleware may be passed directly, or be the first element of a chain slice that a loop
+// installs (`for _, mw := range chain { router.Use(mw) }`), the chain being built by appends in this function or in a helper.
+func (c *Ctx) authInstallSSA(use ssa.CallInstruction) (bool, string) {
+	args := use.Common().Args
+	if len(args) < 2 {
+		return false, "Use call shape not recognised"
+	}
+	m := args[len(args)-1]
+	// variadic Use(mw...) packs the middlewares
+	if el := variadicElems(m); len(el) > 0 {
+		m = el[0]
+	}
+	isAuthCall := func(v ssa.Value) *ssa.Call {
+		call, ok := v.(*ssa.Call)
+		if !ok {
+			if ct, ok2 := v.(*ssa.ChangeType); ok2 {
+				call, ok = ct.X.(*ssa.Call)
+			}
+		}
+		if !ok || call == nil {
+			return nil
+		}
+		if sc := call.Common().StaticCallee(); sc != nil && sc.Name() == "BasicAuthMiddleware" && sc.Pkg != nil && sc.Pkg.Pkg.Path() == pkgMiddleware {
+			return call
+		}
+		return nil
+	}
+	if a := isAuthCall(m); a != nil {
+		return c.authUseGuard(use.Parent(), use.Pos())
+	}
+	// element of a chain
+	var sl ssa.Value
+	if u, ok := m.(*ssa.UnOp); ok && u.Op == token.MUL {
+		if ia, ok := u.X.(*ssa.IndexAddr); ok {
+			sl = ia.X
+		}
+	}
+	if ix, ok := m.(*ssa.Index); ok {
+		sl = ix.X
+	}
+	if sl == nil {
+		return false, "the first middleware installed is neither BasicAuthMiddleware(user, pass) nor the first element of a middleware chain"
+	}
+	// follow into the helper that builds the chain
+	fam := sliceFamily(sl)
+	for v := range fam {
+		if call, ok := v.(*ssa.Call); ok {
+			if sc := call.Common().StaticCallee(); sc != nil && isModuleFn(sc) {
+				for _, r := range returnsOf(sc) {
+					if len(r.Results) > 0 {
+						for k := range sliceFamily(r.Results[0]) {
+							fam[k] = true
+						}
+					}
+				}
+			}
+		}
+	}
+	type app struct {
+		call *ssa.Call
+		elem ssa.Value
+	}
+	var apps []app
+	for v := range fam {
+		call, ok := v.(*ssa.Call)
+		if !ok {
+			continue
+		}
+		if bi, ok := call.Common().Value.(*ssa.Builtin); ok && bi.Name() == "append" && len(call.Common().Args) == 2 {
+			for _, e := range variadicElems(call.Common().Args[1]) {
+				apps = append(apps, app{call, e})
+			}
+		}
+	}
+	if len(apps) == 0 {
+		return false, "the middleware chain is not built by appends that can be followed"
+	}
+	sort.Slice(apps, func(i, j int) bool { return apps[i].call.Pos() < apps[j].call.Pos() })
+	first := apps[0]
+	for _, ap := range apps[1:] {
+		if ap.call.Parent() != first.call.Parent() {
+			return false, "the middleware chain is assembled in more than one function"
+		}
+	}
+	a := isAuthCall(first.elem)
+	if a == nil {
+		return false, "the first element appended to the middleware chain is not BasicAuthMiddleware(user, pass)"
+	}
+	return c.authUseGuard(first.call.Parent(), first.call.Pos())
+}
+
+// guardedByBothSSA: the instruction is dominated by exactly the two tests u != "" and p != "" (u, p the arguments of the
+// BasicAuthMiddleware call) within its function.
+func (c *Ctx) guardedByBothSSA(at ssa.Instruction, auth *ssa.Call) (bool, string) {
+	u, p := auth.Common().Args[0], auth.Common().Args[1]
+	fn := at.Parent()
+	gotU, gotP := false, false
+	isEmpty := func(v ssa.Value) bool { s, ok := constStr(v); return ok && s == "" }
+	for _, gb := range fn.Blocks {
+		if len(gb.Instrs) == 0 {
+			continue
+		}
+		iff, ok := gb.Instrs[len(gb.Instrs)-1].(*ssa.If)
+		if !ok {
+			continue
+		}
+		for i, succ := range gb.Succs {
+			if len(succ.Preds) != 1 || !(succ == at.Block() || succ.Dominates(at.Block())) {
+				continue
+			}
+			truth := i == 0
+			cmp, ok := iff.Cond.(*ssa.BinOp)
+			okTest := false
+			if ok && ((cmp.Op == token.NEQ && truth) || (cmp.Op == token.EQL && !truth)) {
+				var x ssa.Value
+				if isEmpty(cmp.Y) {
+					x = cmp.X
+				} else if isEmpty(cmp.X) {
+					x = cmp.Y
+				}
+				if x != nil {
+					if sameExpr(x, u, 0) {
+						gotU, okTest = true, true
+					}
+					if sameExpr(x, p, 0) {
+						gotP, okTest = true, true
+					}
+				}
+			}
+			if !okTest {
+				return false, fmt.Sprintf("the installation of the auth middleware depends on an extra condition (%s): a configuration with both credentials set can leave the routes open", c.pos(iff.Pos()))
+			}
+		}
+	}
+	if !gotU || !gotP {
+		return false, "the auth middleware is not installed under exactly `user != \"\" && pass != \"\"` over the two values passed to it (a missing test installs it with an empty credential or leaves the routes open)"
+	}
+	return true, "guard: both credentials non-empty"
+}
